@@ -334,7 +334,13 @@ func checkC09(p *Prog, r *Result, tier string) {
 		}
 		order = append(order, construct)
 	}
-	r.Extra["lock_order_edges"] = sortedKeys(func() map[string]bool { m := map[string]bool{}; for _, o := range order { m[o] = true }; return m }())
+	r.Extra["lock_order_edges"] = sortedKeys(func() map[string]bool {
+		m := map[string]bool{}
+		for _, o := range order {
+			m[o] = true
+		}
+		return m
+	}())
 	// R5
 	for _, name := range []string{"Lock", "RLock", "Unlock", "RUnlock"} {
 		fn := p.FuncByName("DB." + name)
@@ -466,7 +472,7 @@ func (l *guardListener) Event(x *Explorer, st *State, ev *Event) {
 }
 
 func (l *guardListener) Return(x *Explorer, st *State, ret *ssa.Return, res []Fact) {}
-func (l *guardListener) End(x *Explorer, st *State, reason string)               {}
+func (l *guardListener) End(x *Explorer, st *State, reason string)                  {}
 
 // excludes: can two goroutines be in contexts a and b at the same time? (false = they exclude each other)
 // names of the store and per-type map types in the analysed tree (set by checkC08 from the anchors)
@@ -659,7 +665,7 @@ func (l *spawnListener) Event(x *Explorer, st *State, ev *Event) {
 	l.seen = true
 }
 func (l *spawnListener) Return(x *Explorer, st *State, ret *ssa.Return, res []Fact) {}
-func (l *spawnListener) End(x *Explorer, st *State, reason string)               {}
+func (l *spawnListener) End(x *Explorer, st *State, reason string)                  {}
 
 var spawnCache sync.Map
 
